@@ -1,5 +1,5 @@
-(* What the model catches: the unrepaired code (D3, D19, D31, D32) violates the statements, with concrete witnesses; and the
-   one path the invariant does not cover in the current code (a dial whose connect(2) completed at once, ONESHOT mode). *)
+(* What the model catches: the unrepaired code (D3, D19, D31, D32, D38) violates the statements, with concrete witnesses.
+   D31, D32 and D38 were found while this component was built (D38 by the one preservation lemma that would not go through). *)
 From Coq Require Import List Arith Bool Lia.
 From WakeC Require Import WakeModel.
 Import ListNotations.
@@ -75,12 +75,28 @@ Lemma repaired_histories :
   deliverable_out LT (fold_left (step LT) [RegisterDial; Deliver false false; HandleOut; AppWrite 10; ConnDone; PeerRead 1] (init 2)) false = true.
 Proof. vm_compute. repeat split; auto. Qed.
 
-(* The gap in the current code (NOT covered by the invariant: RegisterDialNow in ONESHOT mode): addDialer raises isWAdded
-   with an empty queue; if the first event of the descriptor carries no OUT bit (the application filled the send buffer
-   exactly before the poller looked), ResetPollerEvent re-arms read-only by the queue while the flag stays up, and the next
-   backlog finds "already armed". Until the peer sends something (the next ResetPollerEvent arms by the queue) nothing
-   is deliverable. *)
-Lemma dialnow_oneshot_gap :
-  stalled ETOS (fold_left (step ETOS)
-    [RegisterDialNow; AppWrite 2; Deliver true false; Rearm; PeerRead 2; AppWrite 5; PeerRead 2] (init 2)).
+(* D38 (before 2094314): ResetPollerEvent re-armed by the queue but left isWAdded alone. addDialer raises the flag with an
+   empty queue (a dial whose connect(2) completed at once); if the first event of the descriptor carries no OUT bit (the
+   application filled the send buffer exactly before the poller looked), the re-arm is read-only while the flag stays up,
+   and the next backlog finds "already armed": nothing is deliverable until the peer happens to send something. *)
+Definition rearm_d38 (s : st) : st :=
+  match owed s with
+  | O => s
+  | S o =>
+    let s1 := set_owed s o in
+    if closed s1 then s1 else if reg s1 then kctl s1 (0 <? q s1) else s1
+  end.
+Definition step_d38 (s : st) (a : action) : st :=
+  match a with
+  | Rearm => rearm_d38 s
+  | _ => step ETOS s a
+  end.
+
+Definition d38_history : list action :=
+  [RegisterDialNow; AppWrite 2; Deliver true false; Rearm; PeerRead 2; AppWrite 5; PeerRead 2].
+
+Lemma d38_witness : stalled ETOS (fold_left step_d38 d38_history (init 2)).
 Proof. vm_compute. repeat split; auto; lia. Qed.
+
+Lemma d38_repaired : deliverable_out ETOS (fold_left (step ETOS) d38_history (init 2)) false = true.
+Proof. vm_compute. reflexivity. Qed.
